@@ -37,6 +37,10 @@ fn snap(lc: &Lifecycle) -> LcSnap {
 pub struct RunResult {
     /// delivered messages and, per delivery, what a table lookup of msg.lifecycle returned at that moment
     pub delivered: Vec<(DltMessage, Option<LcSnap>)>,
+    /// first (j, i): the lifecycle of delivered message j was visible at its delivery but is gone from the table when
+    /// message i is delivered (i = number of delivered messages: at the end of the run). A consumer that drains slowly
+    /// looks message j's lifecycle up at that later moment.
+    pub revoked: Option<(usize, usize)>,
     /// final table (by id)
     pub table: BTreeMap<LifecycleId, LcSnap>,
     /// listing (ids in listing order) or the panic
@@ -56,6 +60,7 @@ pub fn run_stage(phases: &[&[DltMessage]]) -> Result<RunResult, Panicked> {
         .with_hasher(nohash_hasher::BuildNoHashHasher::<LifecycleId>::default())
         .construct::<LifecycleId, adlt::lifecycle::LifecycleItem>();
     let delivered: RefCell<Vec<(DltMessage, Option<LcSnap>)>> = RefCell::new(Vec::new());
+    let revoked: std::cell::Cell<Option<(usize, usize)>> = Default::default();
     let mut lw: Option<Lw> = Some(lcs_w);
     for ph in phases {
         let (tx, rx) = std::sync::mpsc::channel();
@@ -67,7 +72,14 @@ pub fn run_stage(phases: &[&[DltMessage]]) -> Result<RunResult, Panicked> {
         let r = catch(|| {
             parse_lifecycles_buffered_from_stream(w, rx, &|m: DltMessage| {
                 let look = lcs_r.get_one(&m.lifecycle).map(|g| snap(&g));
-                delivered.borrow_mut().push((m, look));
+                let mut d = delivered.borrow_mut();
+                if revoked.get().is_none() {
+                    let i = d.len();
+                    if let Some(j) = d.iter().position(|(pm, pl)| pl.is_some() && lcs_r.get_one(&pm.lifecycle).is_none()) {
+                        revoked.set(Some((j, i)));
+                    }
+                }
+                d.push((m, look));
                 Ok(())
             })
         });
@@ -94,8 +106,14 @@ pub fn run_stage(phases: &[&[DltMessage]]) -> Result<RunResult, Panicked> {
             }
         }
     }
+    let delivered = delivered.into_inner();
+    if revoked.get().is_none() {
+        if let Some(j) = delivered.iter().position(|(pm, pl)| pl.is_some() && !table.contains_key(&pm.lifecycle)) {
+            revoked.set(Some((j, delivered.len())));
+        }
+    }
     drop(lw);
-    Ok(RunResult { delivered: delivered.into_inner(), table, listing })
+    Ok(RunResult { delivered, revoked: revoked.get(), table, listing })
 }
 
 #[derive(Clone, Copy, PartialEq, Eq)]
@@ -253,6 +271,12 @@ pub fn judge(
                     }
                 }
             }
+            // a consumer that drains slowly looks the lifecycle up later: the entry must still be there
+            if let Some((j, i)) = res.revoked {
+                let when = if i >= res.delivered.len() { "at the end of the run".to_string() } else { format!("when message {i} is delivered") };
+                ctx.violation("publication_revoked", "", case, format!("message {j} (lc {}) was delivered with its lifecycle visible, but {when} that lifecycle is no longer in the table (a slower consumer finds none)", res.delivered[j].0.lifecycle));
+                return true;
+            }
         }
         Which::C07 => {
             let mut counts: BTreeMap<LifecycleId, u32> = BTreeMap::new();
@@ -363,7 +387,7 @@ impl Prop for LcProp {
     fn meta(&self, _tier: Tier) -> Meta {
         let (id, what) = match self.0 {
             Which::C05 => ("C05", "every message forwarded once, in order, unchanged, with a non-zero lifecycle id of its own ECU; a panic of the stage counts as loss"),
-            Which::C06 => ("C06", "at every call of the downstream sender a table lookup of the message's lifecycle id succeeds and names the message's ECU (same-thread reader; cross-thread readers are covered by the scheduler engine under C13/C06-sched)"),
+            Which::C06 => ("C06", "at every call of the downstream sender a table lookup of the message's lifecycle id succeeds and names the message's ECU, and the entry of every message delivered earlier is still in the table (a slowly draining consumer looks it up then) (same-thread reader; cross-thread readers are covered by the scheduler engine under C13/C06-sched)"),
             Which::C07 => ("C07", "final table vs delivered messages (referenced, counts, sum, no merged entry) and the listing (producible, each id once, resume after origin, start-time order without resumes)"),
         };
         Meta {
